@@ -299,3 +299,78 @@ Example aggregate_result_lazy_nonvacuous :
   run_row_unit true true lz_plan lz_pairs = None /\
   spec_unit lz_plan lz_pairs = None.
 Proof. exact lazy_completion_witness. Qed.
+
+(* ================================================================== GROUP BY / AGGREGATES FROM THE QUERY TEXT
+   (appended; Model/PipelineS.v, Proofs/PipelineSProofs.v).  The statement is the TEXT; the plan is
+   what the twin of NewOptimizer(q).BuildPlan builds for it (tied to the Go code on every run by
+   C03's text correspondence, harness/c03.go part F): its fields (Spec/Group.v field: key fields and
+   aggregate expressions, split as AggregatePlan.Init splits them), GROUP BY expressions (the select
+   field objects the GROUP BY items resolve to, in the state the folder left them), aggregate
+   arguments and the pushed-down LIMIT all come from the checked and folded statement. *)
+From KV Require Import Model.SelectPlans Model.Pipeline Model.PipelineS Proofs.PipelineSProofs.
+From KV Require Model.Storage Model.Order Model.Eval Model.EvalVec Model.LimitLazy.
+
+(* the AggregatePlan of the text, on its own (LIMIT pushed into it or none: shape SAgg st l), row mode:
+   the statement's rows are EXACTLY the lazy reference result (spec_result_lazy: partition by equality
+   of GROUP BY value tuples, groups in first-occurrence order, every aggregate the fold of Spec/Group.v
+   over its group, the LIMIT slice; undefined iff a group the LIMIT reaches is undefined) of the plan's
+   fields over the observations made on the pairs of the scan that pass WHERE, rendered column by
+   column.  Under ORDER BY the same holds for the node under the order node (aggregate_node_result)
+   and C07's order_by_text_sorted_permutation relates the statement's rows to it. *)
+Theorem aggregate_text_result :
+  forall (fo : Value.fops) (re : bytes -> bytes -> Value.res bool) (fmt_v : Value.F fo -> string) (ag : aggops fo)
+         (pi pf : bytes -> option Z) (q : string) (d : Storage.store) (pl : splanned fo) (st : nat)
+         (l : option nat) (out : list Order.row),
+  plan_stmt_text fo re fmt_v q = STOk pl ->
+  sp_shape fo pl = SAgg st l ->
+  select_stmt_text fo re fmt_v ag pi pf q d MRow = TOk out ->
+  let c := sp_q fo pl in
+  let p := stmt_plan (Value.F fo) (q_stmt fo c) st l in
+  exists obs rows,
+    sdrain_row (LimitLazy.sel_frow fo re (q_where fo c))
+               (c_lobs_row fo re ag (q_group fo c) (q_keys fo c) (q_args fo c) p) []
+               (scan_slots (sp_scan fo pl) d) = ROk obs /\
+    spec_result_lazy (Value.fadd fo) (Value.fsub fo) (Value.fmul fo) (Value.fdiv fo) (Value.fltb fo) (a_is0 fo ag)
+      (Value.f_of_Z fo) (a_to_Z fo ag) (Value.f_fmt fo) (a_json_f fo ag) (a_parse fo ag) parse_int (a_json_s fo ag)
+      (render_eqb (Value.f_fmt fo) (a_bits fo ag)) p obs = Some rows /\
+    out = map (aconv_row fo (a_fbits fo ag)) rows.
+Proof. exact PipelineSProofs.aggregate_text_result. Qed.
+Print Assumptions aggregate_text_result.
+
+(* the aggregate node of any composed plan, as an equivalence *)
+Theorem aggregate_node_result :
+  forall (fo : Value.fops) (re : bytes -> bytes -> Value.res bool) (ag : aggops fo) (pi pf : bytes -> option Z)
+         (c : cstmt fo) (st : nat) (l : option nat) (sl : list (option EvalVec.kvpair)) (out : list Order.row),
+  let p := stmt_plan (Value.F fo) (q_stmt fo c) st l in
+  select_shape_row fo re ag pi pf c (SAgg st l) sl = ROk out <->
+  exists obs rows,
+    sdrain_row (LimitLazy.sel_frow fo re (q_where fo c))
+               (c_lobs_row fo re ag (q_group fo c) (q_keys fo c) (q_args fo c) p) [] sl = ROk obs /\
+    spec_result_lazy (Value.fadd fo) (Value.fsub fo) (Value.fmul fo) (Value.fdiv fo) (Value.fltb fo) (a_is0 fo ag)
+      (Value.f_of_Z fo) (a_to_Z fo ag) (Value.f_fmt fo) (a_json_f fo ag) (a_parse fo ag) parse_int (a_json_s fo ag)
+      (render_eqb (Value.f_fmt fo) (a_bits fo ag)) p obs = Some rows /\
+    out = map (aconv_row fo (a_fbits fo ag)) rows.
+Proof. exact PipelineSProofs.aggregate_node_result. Qed.
+Print Assumptions aggregate_node_result.
+
+(* non-vacuity: GROUP BY + count + arithmetic on sum + LIMIT 1, 5 without ORDER BY (pushed into the
+   AggregatePlan: shape SAgg 1 (Some 5)); what Init made of the fields; the rows *)
+Local Open Scope string_scope.
+Definition ps9_store : Storage.store := [("a", "3"); ("ab", "1"); ("b", "2"); ("c", "1")].
+Definition ps9_q : string := "select value as g, count(1) as c, sum(int(value)) * 2 as s where key > '' group by g limit 1, 5".
+
+Example aggregate_text_result_nonvacuous :
+  forall (fo : Value.fops) (re : bytes -> bytes -> Value.res bool) (fmt_v : Value.F fo -> string) (ag : aggops fo)
+         (pi pf : bytes -> option Z),
+  (exists pl, plan_stmt_text fo re fmt_v ps9_q = STOk pl /\ sp_shape fo pl = SAgg 1 (Some 5) /\
+     s_aggr (Value.F fo) (q_stmt fo (sp_q fo pl)) =
+       Some (false, [FKey 0; FAgg (AECall 0) [Call ACount 0];
+                     FAgg (AEBin Times (AECall 0) (AEInt 2)) [Call ASum 1]]) /\
+     List.length (q_group fo (sp_q fo pl)) = 1 /\ List.length (q_keys fo (sp_q fo pl)) = 1 /\
+     List.length (q_args fo (sp_q fo pl)) = 2) /\
+  select_stmt_text fo re fmt_v ag pi pf ps9_q ps9_store MRow =
+    TOk [[Order.VBytes "1"; Order.VInt 2; Order.VInt 4]; [Order.VBytes "2"; Order.VInt 1; Order.VInt 4]].
+Proof.
+  intros. split; [|vm_compute; reflexivity].
+  eexists. split; [vm_compute; reflexivity|]. repeat split; vm_compute; reflexivity.
+Qed.
